@@ -16,7 +16,7 @@ The property (of the Kava code base) that your change must BREAK:
 Task: make a small source change (a few lines, in non-test .go files under the worktree) that a careless but plausible refactoring, optimisation or bug-fix could introduce, such that
   1. the repository still compiles and the EXISTING tests of every package you touched (and of the packages that directly use the changed code) still pass, unedited; and
   2. the property above no longer holds — but only under something specific: a particular multi-step sequence of operations, an unusual or boundary input, a particular block-time or ordering, or two cooperating sites that each look fine alone. Ordinary use (and the existing tests) must NOT expose it at once.{(' Angle to prefer: ' + hint) if hint else ''}
-Then write a demonstration: a NEW Go test file (placed in the appropriate package directory of the worktree, name it zz_seeded_demo_test.go) that FAILS with your change and PASSES without it (verify both: use `git stash` / `git stash pop` or apply/revert your diff). Keep the demonstration small and deterministic.
+Then write a demonstration: a NEW Go test file (placed in the appropriate package directory of the worktree, name it zz_seeded_demo_test.go) that FAILS with your change and PASSES without it (verify both: save your diff with `git diff > /tmp/yourpatch.diff` and use `git apply -R` / `git apply` to switch; NEVER use `git stash` — the stash is shared with other worktrees of this repository). Keep the demonstration small and deterministic.
 
 Environment: every shell call needs `export GOFLAGS=-mod=mod GOPROXY=off GOSUMDB=off GOTOOLCHAIN=local`; run tests like `cd {wt} && go test -vet=off -count=1 ./x/<module>/...`. Builds are cached; a package test run takes 10–120 s. Do not run the whole repository's test suite; run the touched packages and their direct users.
 
